@@ -37,6 +37,20 @@
 //       two-pin nets with non-uniform weights and degenerate nets (dangling pin, pads only, empty)
 //       interleaved.
 //
+//   CH  object histories on the Circuit's NET SETTERS (family: state carried across calls — a net setter that leaves
+//       weights / limits / pins / offsets of the object's past behind).  One case in three of the topology stream t<k> and
+//       of CL reaches its net list through a history of public calls on ONE object (weighted setNets of another list of
+//       another size then the final setNets with or without the weights argument, addNet before / after setNets with or
+//       without the weight argument, setNetWeights before / after setNets, random walks of 2..4 such calls).  The intended
+//       final nets are computed here from the documented meaning of each call (setNets replaces everything, an omitted
+//       weights argument means weight 1 for every net; addNet appends one net, default weight 1; setNetWeights replaces the
+//       weights) and a FRESH twin is built with one setNets of exactly those nets.  Demanded: the NetModel of the object
+//       equals the NetModel of the twin (and the Lean model's topology of the *intended* circuit, which is what the ops
+//       stream carries); the initial solve of the object is the least-squares optimum for the *intended* weights (CL on
+//       the twin's accessors); it is bitwise equal to the initial solve of the twin with all weights times 2^k, and so is
+//       one refinement solve() with a random net model.  The failing input carries base circuit + the calls
+//       (`nethistory ... endhistory`), and --replay reads it back.
+//
 // Topology correspondence (no hook needed): random circuits (vc::genCircuit cells/rows/pads, all eight
 // orientations, nets built here: ordinary, two-pin, repeated cells, pads inside and outside the
 // placement area, degenerate nets interleaved, non-uniform float weights) → NetModel::xTopology /
@@ -51,6 +65,7 @@
 
 #include "common/harness.hpp"
 #include "common/circuit.hpp"
+#include "common/history.hpp"  // replayInput / parseState / rebuild (reading a recorded net-setter history back)
 #include "coloquinte.hpp"
 #include "place_global/net_model.hpp"
 
@@ -762,10 +777,313 @@ static float topoWeight(vh::Rng &g) {
   return anyWeight(g);
 }
 
+// ---------------------------------------------------------------------------------- net-setter histories (CH)
+struct CNet { std::vector<int> cells, xo, yo; float w = 1.0f; };
+
+static void flatten(const std::vector<CNet> &nets, std::vector<int> &limits, std::vector<int> &cells, std::vector<int> &xo,
+                    std::vector<int> &yo, std::vector<float> &w) {
+  limits = {0}; cells.clear(); xo.clear(); yo.clear(); w.clear();
+  for (auto &nt : nets) {
+    cells.insert(cells.end(), nt.cells.begin(), nt.cells.end());
+    xo.insert(xo.end(), nt.xo.begin(), nt.xo.end());
+    yo.insert(yo.end(), nt.yo.begin(), nt.yo.end());
+    limits.push_back(cells.size());
+    w.push_back(nt.w);
+  }
+}
+
+// One call of a public net setter of Circuit with its complete arguments.
+struct NetOp {
+  enum Kind { SetNets, AddNet, SetNetWeights } kind = SetNets;
+  bool weighted = true;     // SetNets / AddNet: false = the weights / weight argument is omitted (documented default: 1)
+  std::vector<CNet> nets;   // SetNets: the whole list; AddNet: one net (never empty: addNet ignores a net without pins)
+  std::vector<float> ws;    // SetNetWeights
+  std::string name() const {
+    if (kind == SetNets) return weighted ? "setNets_with_weights" : "setNets_without_weights";
+    if (kind == AddNet) return weighted ? "addNet_with_weight" : "addNet_default_weight";
+    return "setNetWeights";
+  }
+  static void netText(std::ostream &os, const CNet &nt) {
+    os << " " << exactFloat(nt.w) << " " << nt.cells.size();
+    for (size_t p = 0; p < nt.cells.size(); ++p) os << " " << nt.cells[p] << " " << nt.xo[p] << " " << nt.yo[p];
+  }
+  // hop setNets <weighted> <nbNets> {<mant> <exp2> <nbPins> {cell xoff yoff}}   (weights are ignored when weighted = 0)
+  // hop addNet <weighted> <mant> <exp2> <nbPins> {cell xoff yoff}
+  // hop setNetWeights <n> {<mant> <exp2>}
+  std::string text() const {
+    std::ostringstream os;
+    if (kind == SetNets) {
+      os << "hop setNets " << (int)weighted << " " << nets.size();
+      for (auto &nt : nets) netText(os, nt);
+    } else if (kind == AddNet) {
+      os << "hop addNet " << (int)weighted;
+      netText(os, nets[0]);
+    } else {
+      os << "hop setNetWeights " << ws.size();
+      for (float v : ws) os << " " << exactFloat(v);
+    }
+    return os.str();
+  }
+  static bool parseNet(std::istream &is, CNet &nt) {
+    long long m; int e; size_t np;
+    if (!(is >> m >> e >> np)) return false;
+    nt = CNet();
+    nt.w = (float)std::ldexp((double)m, e);
+    for (size_t i = 0; i < np; ++i) {
+      int c, a, b;
+      if (!(is >> c >> a >> b)) return false;
+      nt.cells.push_back(c); nt.xo.push_back(a); nt.yo.push_back(b);
+    }
+    return true;
+  }
+  static bool parse(const std::string &line, NetOp &op) {
+    std::istringstream is(line);
+    std::string kw, nm;
+    if (!(is >> kw >> nm) || kw != "hop") return false;
+    op = NetOp();
+    int wf; size_t n;
+    if (nm == "setNets") {
+      op.kind = SetNets;
+      if (!(is >> wf >> n)) return false;
+      op.weighted = wf != 0;
+      op.nets.resize(n);
+      for (auto &nt : op.nets) if (!parseNet(is, nt)) return false;
+    } else if (nm == "addNet") {
+      op.kind = AddNet;
+      if (!(is >> wf)) return false;
+      op.weighted = wf != 0;
+      op.nets.resize(1);
+      if (!parseNet(is, op.nets[0]) || op.nets[0].cells.empty()) return false;
+    } else if (nm == "setNetWeights") {
+      op.kind = SetNetWeights;
+      if (!(is >> n)) return false;
+      for (size_t i = 0; i < n; ++i) {
+        long long m; int e;
+        if (!(is >> m >> e)) return false;
+        op.ws.push_back((float)std::ldexp((double)m, e));
+      }
+    } else {
+      return false;
+    }
+    return true;
+  }
+  // the real call (exceptions of the setter propagate)
+  void apply(Circuit &c) const {
+    if (kind == SetNets) {
+      std::vector<int> limits, cells, xo, yo;
+      std::vector<float> w;
+      flatten(nets, limits, cells, xo, yo, w);
+      if (weighted) c.setNets(limits, cells, xo, yo, w);
+      else c.setNets(limits, cells, xo, yo);
+    } else if (kind == AddNet) {
+      if (weighted) c.addNet(nets[0].cells, nets[0].xo, nets[0].yo, nets[0].w);
+      else c.addNet(nets[0].cells, nets[0].xo, nets[0].yo);
+    } else {
+      c.setNetWeights(ws);
+    }
+  }
+  // the documented meaning of the call on the list of nets of the circuit
+  void shadow(std::vector<CNet> &st) const {
+    if (kind == SetNets) {
+      st = nets;
+      if (!weighted) for (auto &nt : st) nt.w = 1.0f;
+    } else if (kind == AddNet) {
+      st.push_back(nets[0]);
+      if (!weighted) st.back().w = 1.0f;
+    } else {
+      for (size_t i = 0; i < st.size() && i < ws.size(); ++i) st[i].w = ws[i];
+    }
+  }
+};
+
+// A case of the Circuit path: the circuit before any net setter, the intended final nets, and how the object handed to
+// the real code got them (ops empty: one weighted setNets on the fresh object).
+struct CircuitCase {
+  Circuit base{0};
+  std::vector<CNet> nets;
+  std::vector<NetOp> ops;
+  Circuit obj{0};
+  bool hist() const { return !ops.empty(); }
+  // a fresh object with the intended nets (all weights times factor), built by one setNets
+  Circuit twin(float factor = 1.0f) const {
+    Circuit t = base;
+    std::vector<int> limits, cells, xo, yo;
+    std::vector<float> w;
+    flatten(nets, limits, cells, xo, yo, w);
+    for (float &v : w) v *= factor;
+    t.setNets(limits, cells, xo, yo, w);
+    return t;
+  }
+  void build() {
+    if (ops.empty()) { obj = twin(); return; }
+    obj = base;
+    for (auto &op : ops) op.apply(obj);
+  }
+  // replayable text: `nethistory <head>` + base circuit + calls + `endhistory` (+ the intended final circuit, for the reader)
+  std::string historyText(const std::string &head) const {
+    std::string s = "nethistory " + head + "\n" + vc::circuitString(base);
+    for (auto &op : ops) s += op.text() + "\n";
+    s += "endhistory\nintended final circuit:\n" + vc::circuitString(twin());
+    return s;
+  }
+};
+
+static bool parseNetHistory(const std::string &txt, std::string &head, CircuitCase &cc) {
+  std::vector<std::string> lines = vhist::splitLines(txt);
+  if (lines.empty() || lines[0].rfind("nethistory", 0) != 0) return false;
+  head = lines[0].size() > 11 ? lines[0].substr(11) : "";
+  size_t pos = 1;
+  vhist::State st;
+  if (!vhist::parseState(lines, pos, st)) return false;
+  st.nets.clear();
+  cc.base = vhist::rebuild(st);
+  cc.ops.clear();
+  cc.nets.clear();
+  for (; pos < lines.size(); ++pos) {
+    if (lines[pos] == "endhistory") break;
+    if (lines[pos].empty()) continue;
+    NetOp op;
+    if (!NetOp::parse(lines[pos], op)) return false;
+    for (auto &nt : op.nets) for (int c : nt.cells) if (c < 0 || c >= cc.base.nbCells()) return false;
+    cc.ops.push_back(op);
+    op.shadow(cc.nets);
+  }
+  return !cc.ops.empty();
+}
+
+static float topoWeight(vh::Rng &g);
+
+static CNet randomNet(vh::Rng &g, const Circuit &base, int minPins) {
+  CNet nt;
+  int n = base.nbCells();
+  int d = g.range(minPins, 4);
+  for (int i = 0; i < d; ++i) {
+    int cell = g.range(0, n - 1);
+    nt.cells.push_back(cell);
+    nt.xo.push_back(g.range(-2, base.cellWidth()[cell] + 2));
+    nt.yo.push_back(g.range(-2, base.cellHeight()[cell] + 2));
+  }
+  nt.w = topoWeight(g);
+  return nt;
+}
+static float otherWeight(vh::Rng &g, float notThis) {
+  for (int i = 0; i < 8; ++i) {
+    float w = topoWeight(g);
+    if (w != notThis && w != 1.0f) return w;
+  }
+  return notThis == 3.0f ? 0.75f : 3.0f;
+}
+// Another net list derived from f0: nets dropped / inserted (so that the number of nets and the limits differ), pins
+// moved to other cells, offsets changed, every weight different from the one f0 has at that index and from 1.
+static std::vector<CNet> perturbNets(vh::Rng &g, const Circuit &base, const std::vector<CNet> &f0) {
+  std::vector<CNet> r;
+  int sizeMode = g.range(0, 2);  // 0: same number of nets, 1: fewer, 2: more
+  for (auto &nt : f0) {
+    if (sizeMode == 1 && g.chance(1, 3)) continue;
+    if (sizeMode == 2 && g.chance(1, 4)) r.push_back(randomNet(g, base, 0));
+    r.push_back(nt);
+  }
+  if (sizeMode == 2 || r.empty()) { int k = g.range(1, 3); for (int i = 0; i < k; ++i) r.push_back(randomNet(g, base, 1)); }
+  if (sizeMode == 1 && r.size() == f0.size() && r.size() > 1) r.pop_back();
+  for (size_t i = 0; i < r.size(); ++i) {
+    CNet &nt = r[i];
+    for (size_t p = 0; p < nt.cells.size(); ++p) {
+      if (g.chance(1, 8)) nt.cells[p] = g.range(0, base.nbCells() - 1);
+      if (g.chance(1, 4)) nt.xo[p] += (int)g.range(-3, 3);
+      if (g.chance(1, 4)) nt.yo[p] += (int)g.range(-3, 3);
+    }
+    if (g.chance(1, 6) && !nt.cells.empty()) { nt.cells.pop_back(); nt.xo.pop_back(); nt.yo.pop_back(); }
+    nt.w = otherWeight(g, i < f0.size() ? f0[i].w : 1.0f);
+  }
+  return r;
+}
+
+// A history of net-setter calls whose documented outcome resembles f0 (most plans end exactly in f0's pins; the weights
+// are f0's or 1 where the last call omits them).  The intended final nets are NOT taken from here: the caller applies
+// NetOp::shadow.
+static std::vector<NetOp> genNetHistory(vh::Rng &g, vh::Out &out, const Circuit &base, const std::vector<CNet> &f0, const std::string &pfx) {
+  std::vector<NetOp> ops;
+  auto setNets = [&](const std::vector<CNet> &nets, bool weighted) { NetOp o; o.kind = NetOp::SetNets; o.weighted = weighted; o.nets = nets; return o; };
+  auto addNet = [&](const CNet &nt, bool weighted) { NetOp o; o.kind = NetOp::AddNet; o.weighted = weighted; o.nets = {nt}; return o; };
+  auto setW = [&](size_t n, const std::vector<CNet> *avoid) {
+    NetOp o; o.kind = NetOp::SetNetWeights;
+    for (size_t i = 0; i < n; ++i) o.ws.push_back(otherWeight(g, avoid && i < avoid->size() ? (*avoid)[i].w : 1.0f));
+    return o;
+  };
+  int plan = g.range(0, 9);
+  out.count(pfx + "_hist_plan_" + std::to_string(std::min(plan, 6)));
+  if (plan == 0) {         // weighted setNets of another list, then the final list WITHOUT weights
+    ops = {setNets(perturbNets(g, base, f0), true), setNets(f0, false)};
+  } else if (plan == 1) {  // weighted setNets of another list (other size), then the final list with its weights
+    ops = {setNets(perturbNets(g, base, f0), true), setNets(f0, true)};
+  } else if (plan == 2) {  // addNet (weighted) on the fresh object, then setNets
+    int k = g.range(1, 4);
+    for (int i = 0; i < k; ++i) { CNet nt = randomNet(g, base, 1); nt.w = otherWeight(g, 1.0f); ops.push_back(addNet(nt, true)); }
+    ops.push_back(setNets(f0, g.chance(1, 2)));
+  } else if (plan == 3) {  // setNets of a prefix, the other nets through addNet
+    size_t lastEmpty = 0;
+    for (size_t i = 0; i < f0.size(); ++i) if (f0[i].cells.empty()) lastEmpty = i + 1;
+    size_t j = g.range(lastEmpty, f0.size());
+    if (g.chance(1, 2)) ops.push_back(setNets(perturbNets(g, base, f0), true));
+    ops.push_back(setNets(std::vector<CNet>(f0.begin(), f0.begin() + j), g.chance(1, 2)));
+    for (size_t i = j; i < f0.size(); ++i) ops.push_back(addNet(f0[i], g.chance(2, 3)));
+  } else if (plan == 4) {  // the final pins with other weights, then setNetWeights
+    std::vector<CNet> o = f0;
+    for (auto &nt : o) nt.w = otherWeight(g, nt.w);
+    ops.push_back(setNets(o, g.chance(3, 4)));
+    NetOp w; w.kind = NetOp::SetNetWeights;
+    for (auto &nt : f0) w.ws.push_back(nt.w);
+    ops.push_back(w);
+  } else if (plan == 5) {  // setNets, setNetWeights, then the same limits with other offsets and no weights (+ an addNet now and then)
+    ops.push_back(setNets(f0, true));
+    ops.push_back(setW(f0.size(), &f0));
+    std::vector<CNet> o = f0;
+    for (auto &nt : o) for (size_t p = 0; p < nt.cells.size(); ++p) { if (g.chance(1, 3)) nt.xo[p] += (int)g.range(-3, 3); if (g.chance(1, 3)) nt.yo[p] += (int)g.range(-3, 3); }
+    ops.push_back(setNets(o, false));
+    if (g.chance(1, 3)) ops.push_back(addNet(randomNet(g, base, 1), g.chance(1, 2)));
+  } else {                 // random walk of 2..4 calls; one of the last two is a setNets of the final list
+    int len = g.range(2, 4);
+    int forced = len - 1 - (int)g.range(0, 1);
+    std::vector<CNet> st;
+    for (int i = 0; i < len; ++i) {
+      NetOp o;
+      int kind = g.range(0, 5);
+      if (i == forced) o = setNets(f0, g.chance(1, 2));
+      else if (kind <= 1) o = setNets(perturbNets(g, base, f0), g.chance(2, 3));
+      else if (kind <= 3) o = addNet(randomNet(g, base, 1), g.chance(2, 3));
+      else o = setW(st.size(), &st);
+      o.shadow(st);
+      ops.push_back(o);
+    }
+  }
+  // measured: what the calls meet
+  std::vector<CNet> st;
+  bool anySetNets = false;
+  for (auto &o : ops) {
+    out.count("hist_call_" + o.name());
+    bool nonUnit = false;
+    for (auto &nt : st) if (nt.w != 1.0f) nonUnit = true;
+    if (o.kind == NetOp::SetNets) {
+      if (!o.weighted && nonUnit) out.count("hist_setNets_without_weights_on_object_holding_non_unit_weights");
+      if (!st.empty()) out.count(o.nets.size() < st.size() ? "hist_setNets_to_fewer_nets" : (o.nets.size() > st.size() ? "hist_setNets_to_more_nets" : "hist_setNets_to_as_many_nets"));
+      anySetNets = true;
+    } else if (o.kind == NetOp::AddNet) {
+      out.count(anySetNets ? "hist_addNet_after_setNets" : "hist_addNet_before_any_setNets");
+    } else {
+      out.count(st.empty() ? "hist_setNetWeights_on_no_nets" : "hist_setNetWeights_on_nets");
+    }
+    o.shadow(st);
+  }
+  return ops;
+}
+
 // Random circuit for the Circuit path: cells / rows / pads from vc::genCircuit (no nets), possibly one more
 // movable cell turned into a pad, and a net list built here.  lsq: mostly two-pin nets, every movable
 // cell anchored to a pad with probability 3/4 (so that most systems are non-singular).
-static Circuit genNetCircuit(vh::Rng &g, vh::Out &out, bool lsq, const std::string &pfx, bool &shiftVisible) {
+// hg (may be null): the generator of the object's history; when given, the nets reach the object through a history of
+// net-setter calls (CH) instead of the single setNets.
+static CircuitCase genNetCircuit(vh::Rng &g, vh::Out &out, bool lsq, const std::string &pfx, bool &shiftVisible, vh::Rng *hg = nullptr) {
+  CircuitCase cc;
   vc::GenOpts o;
   o.maxRows = 5;
   o.maxCells = lsq ? 8 : 10;
@@ -785,7 +1103,6 @@ static Circuit genNetCircuit(vh::Rng &g, vh::Out &out, bool lsq, const std::stri
     split();
     c.setCellIsFixed(fx);
   }
-  struct CNet { std::vector<int> cells, xo, yo; float w; };
   std::vector<CNet> nets;
   auto pin = [&](CNet &nt, int cell) {
     nt.cells.push_back(cell);
@@ -839,27 +1156,28 @@ static Circuit genNetCircuit(vh::Rng &g, vh::Out &out, bool lsq, const std::stri
     }
   }
   if (g.chance(1, 8)) for (auto &nt : nets) nt.w = nets[0].w;  // uniform weights now and then
-  std::vector<int> limits = {0}, cells, xo, yo;
-  std::vector<float> w;
-  for (auto &nt : nets) {
-    cells.insert(cells.end(), nt.cells.begin(), nt.cells.end());
-    xo.insert(xo.end(), nt.xo.begin(), nt.xo.end());
-    yo.insert(yo.end(), nt.yo.begin(), nt.yo.end());
-    limits.push_back(cells.size());
-    w.push_back(nt.w);
+  cc.base = c;
+  cc.nets = nets;
+  if (hg && n > 0) {
+    cc.ops = genNetHistory(*hg, out, cc.base, nets, pfx);
+    cc.nets.clear();
+    for (auto &op : cc.ops) op.shadow(cc.nets);  // the intended final nets: the documented outcome of the calls
+    out.count(pfx + "_hist_cases");
+    out.count(pfx + "_hist_calls", (long long)cc.ops.size());
   }
-  c.setNets(limits, cells, xo, yo, w);
+  cc.build();
   // measured distribution: which nets carry wirelength (independent of NetModel)
   int kept = 0, skipped = 0;
   shiftVisible = false;
-  for (auto &nt : nets) {
+  const std::vector<CNet> &fin = cc.nets;
+  for (auto &nt : fin) {
     int nm = 0; bool hf = false;
     for (int cell : nt.cells) { if (fx[cell]) hf = true; else ++nm; }
     bool keep = nm >= 1 && (nm >= 2 || hf);
     if (keep) {
       out.count(pfx + "_net_kept");
       if (nt.w < 1) out.count(pfx + "_net_kept_weight_below_1");
-      if (skipped > 0 && nets[kept].w != nt.w) shiftVisible = true;  // net index != model index, and it matters
+      if (skipped > 0 && fin[kept].w != nt.w) shiftVisible = true;  // net index != model index, and it matters
       ++kept;
     } else {
       ++skipped;
@@ -869,7 +1187,7 @@ static Circuit genNetCircuit(vh::Rng &g, vh::Out &out, bool lsq, const std::stri
   if (skipped > 0) out.count(pfx + "_case_with_degenerate_net");
   if (shiftVisible) out.count(pfx + "_case_degenerate_net_before_kept_net_of_other_weight");
   if (!fix.empty()) out.count(pfx + "_case_with_pads");
-  return c;
+  return cc;
 }
 
 static void emitTopology(std::ostream &os, const NetModel &m, const char *axis) {
@@ -943,48 +1261,122 @@ static void countInexact(const Circuit &c, vh::Out &out) {
   if (nFixed + nOff + nSize + nArea > 0) out.count("topo_large_case_with_inexact_conversion");
 }
 
-static void topologyCase(vh::Out &out, const std::string &id, vh::Rng &g, bool large) {
-  bool shiftVisible = false;
-  Circuit c = genNetCircuit(g, out, false, large ? "topoL" : "topo", shiftVisible);
-  if (large) {
-    enlarge(c, g, out);
-    countInexact(c, out);
-  }
-  std::string in = vc::circuitString(c);
+static std::string topologyText(const Circuit &c) {
+  std::ostringstream os;
+  emitTopology(os, NetModel::xTopology(c), "x");
+  emitTopology(os, NetModel::yTopology(c), "y");
+  return os.str();
+}
+
+// The topology stream on a prepared case.  With a history (CH): the ops stream carries the *intended* final circuit (the
+// fresh twin), the impl stream what xTopology/yTopology make of the object that went through the calls, and the direct
+// oracle demands that both objects give the same NetModel.
+static void topologyRun(vh::Out &out, const std::string &id, CircuitCase &cc, bool large, bool shiftVisible) {
+  Circuit &c = cc.obj;
+  std::string in = cc.hist() ? cc.historyText("topo") : vc::circuitString(c);
   vh::setCase(id, in);
   std::ostringstream impl;
   impl << "case " << id << "\n";
+  std::string modelCircuit = in;
   try {
-    emitTopology(impl, NetModel::xTopology(c), "x");
-    emitTopology(impl, NetModel::yTopology(c), "y");
+    std::string mine = topologyText(c);
+    impl << mine;
+    if (cc.hist()) {
+      Circuit t = cc.twin();
+      modelCircuit = vc::circuitString(t);
+      std::string fresh = topologyText(t);
+      out.count("CH_topology_comparisons");
+      if (mine != fresh) {
+        auto oneLine = [](std::string t) { for (char &ch : t) if (ch == '\n') ch = ';'; return t.substr(0, 400); };
+        out.fail(id, "the NetModel (xTopology/yTopology) of a circuit that received its nets through a history of net setters differs from the one of "
+                     "a freshly built circuit with the nets those calls document; object: " + oneLine(mine) + " | fresh: " + oneLine(fresh), in);
+        return;
+      }
+    }
   } catch (const std::exception &e) {
     out.fail(id, std::string("xTopology/yTopology threw on a valid circuit: ") + e.what(), in);
     return;
   }
-  out.ops << "case " << id << "\n" << in << "topo x\ntopo y\n";
+  out.ops << "case " << id << "\n" << modelCircuit << "topo x\ntopo y\n";
   out.impl << impl.str();
   out.evaluations++;
   out.count(large ? "topo_large_cases" : "topo_cases");
   if (shiftVisible) out.nontrivial(vh::hashStr("t" + in));
+  if (cc.hist()) out.nontrivial(vh::hashStr("th" + in));
   if (out.samples.size() < 4) out.sample("topology: " + in);
 }
 
-// CL: the real solver through the Circuit path against the least-squares optimum for the circuit's own weights
-static void circuitLsqOracle(vh::Out &out, const std::string &id, vh::Rng &g) {
+static void topologyCase(vh::Out &out, const std::string &id, vh::Rng &g, bool large, vh::Rng *hg = nullptr) {
   bool shiftVisible = false;
-  Circuit c = genNetCircuit(g, out, true, "CL", shiftVisible);
+  CircuitCase cc = genNetCircuit(g, out, false, large ? "topoL" : "topo", shiftVisible, large ? nullptr : hg);
+  if (large) {
+    enlarge(cc.obj, g, out);
+    countInexact(cc.obj, out);
+  }
+  topologyRun(out, id, cc, large, shiftVisible);
+}
+
+// CL: the real solver through the Circuit path against the least-squares optimum for the circuit's own weights.
+// With a history (CH) the optimum is the one for the *intended* weights (accessors of the fresh twin), and the solution
+// must be bitwise the one of the twin with all weights times 2^k (initial solve, and one refinement solve()).
+static void circuitLsqRun(vh::Out &out, const std::string &id, CircuitCase &cc, float tol, int k, int refineModel, bool shiftVisible) {
+  const Circuit &c = cc.obj;
+  const bool hist = cc.hist();
+  Circuit ref = hist ? cc.twin() : c;                 // whose accessors define the documented quadratic
+  Circuit scaled = hist ? cc.twin(pow2(k)) : Circuit(0);
   NetModel::Parameters p;
-  p.tolerance = g.chance(1, 3) ? 1.0e-6f : 1.0e-4f;
+  p.tolerance = tol;
   p.maxNbIterations = 1000;
+  std::string histIn;
+  if (hist) {
+    std::ostringstream hs;
+    hs << "lsq " << exactFloat(tol) << " " << k << " " << refineModel;
+    histIn = cc.historyText(hs.str());
+  }
   for (int axis = 0; axis < 2; ++axis) {
     bool xa = axis == 0;
     std::ostringstream is;
     is << (xa ? "xTopology" : "yTopology") << "(circuit).solveStar(tol=" << fstr(p.tolerance) << ",maxIter=" << p.maxNbIterations << ") "
        << vc::circuitString(c);
-    std::string in = is.str();
+    std::string in = hist ? histIn : is.str();
     vh::setCase(id, in);
+    auto finite = [](const std::vector<float> &v) { for (float f : v) if (!std::isfinite(f)) return false; return true; };
+    if (hist) {
+      // CH: same nets, all weights times 2^k, fresh object -> bitwise the same solutions
+      try {
+        NetModel mo = xa ? NetModel::xTopology(c) : NetModel::yTopology(c);
+        NetModel mt = xa ? NetModel::xTopology(scaled) : NetModel::yTopology(scaled);
+        std::vector<float> xo = mo.solveStar(p), xt = mt.solveStar(p);
+        if (finite(xo) && finite(xt)) {
+          out.count("CH_S2_initial_solve_comparisons");
+          if (!bitwiseEqual(xo, xt)) {
+            out.fail(id, std::string("initial solve (") + (xa ? "x" : "y") + " axis) of the circuit that received its nets through the history of net setters: [" +
+                             vecStr(xo) + "]; freshly built circuit with the documented final nets and all weights times 2^" + std::to_string(k) + ": [" + vecStr(xt) + "]", in);
+            return;
+          }
+          NetModel::Parameters pr = p;
+          static const NetModelOption opts[] = {NetModelOption::BoundToBound, NetModelOption::Star, NetModelOption::Clique, NetModelOption::LightStar};
+          pr.netModel = opts[refineModel & 3];
+          std::vector<float> ro = mo.solve(xt, pr), rt = mt.solve(xt, pr);
+          if (finite(ro) && finite(rt)) {
+            out.count("CH_S2_refinement_solve_comparisons");
+            if (!bitwiseEqual(ro, rt)) {
+              out.fail(id, std::string("refinement solve() (") + (xa ? "x" : "y") + " axis, net model " + MODE_NAME[1 + (refineModel & 3)] +
+                               ") of the circuit that received its nets through the history of net setters: [" + vecStr(ro) +
+                               "]; freshly built circuit with the documented final nets and all weights times 2^" + std::to_string(k) + ": [" + vecStr(rt) + "]", in);
+              return;
+            }
+          }
+        } else {
+          out.count("CH_skipped_nonfinite_solution");
+        }
+      } catch (const std::exception &e) {
+        out.fail(id, std::string("xTopology/yTopology/solveStar/solve threw on a valid circuit: ") + e.what(), in);
+        return;
+      }
+    }
     bool twoPinOnly = true;
-    Dense d = denseFromCircuit(c, xa, twoPinOnly);
+    Dense d = denseFromCircuit(ref, xa, twoPinOnly);
     DenseSol s = denseSolve(d);
     if (!s.ok) { out.count("CL_skipped_singular"); continue; }
     out.evaluations++;
@@ -997,6 +1389,10 @@ static void circuitLsqOracle(vh::Out &out, const std::string &id, vh::Rng &g) {
     out.count(sharp ? "CL_tolerance_below_1pct_of_scale" : "CL_tolerance_loose");
     out.count(twoPinOnly ? "CL_two_pin_nets_only" : "CL_with_star_nets");
     if (sharp && shiftVisible) { out.nontrivial(vh::hashStr("q" + in)); out.count("CL_sharp_and_degenerate_before_kept"); }
+    if (hist) {
+      out.count("CH_least_squares_comparisons");
+      if (sharp) { out.nontrivial(vh::hashStr("qh" + in + (xa ? "x" : "y"))); out.count("CH_least_squares_sharp"); }
+    }
     std::vector<float> x;
     try {
       x = (xa ? NetModel::xTopology(c) : NetModel::yTopology(c)).solveStar(p);
@@ -1005,16 +1401,50 @@ static void circuitLsqOracle(vh::Out &out, const std::string &id, vh::Rng &g) {
       return;
     }
     for (int i = 0; i < c.nbCells(); ++i) {
-      if (c.isFixed(i)) continue;
+      if (ref.isFixed(i)) continue;
       if (!(std::fabs((double)x[i] - s.x[i]) <= T)) {
         std::ostringstream os;
         os << "initial solve of the circuit (" << (xa ? "x" : "y") << " axis) puts the centre of cell " << i << " at " << fstr(x[i])
-           << " but the least-squares optimum for the circuit's own net weights has it at " << s.x[i] << " (allowed " << T << ")";
+           << " but the least-squares optimum for the " << (hist ? "net weights its setters were given" : "circuit's own net weights") << " has it at " << s.x[i] << " (allowed " << T << ")";
         out.fail(id, os.str(), in);
         return;
       }
     }
   }
+}
+
+static void circuitLsqOracle(vh::Out &out, const std::string &id, vh::Rng &g, vh::Rng *hg = nullptr) {
+  bool shiftVisible = false;
+  CircuitCase cc = genNetCircuit(g, out, true, "CL", shiftVisible, hg);
+  float tol = g.chance(1, 3) ? 1.0e-6f : 1.0e-4f;
+  int k = 1, refine = 0;
+  if (hg) {
+    k = hg->chance(1, 2) ? (int)hg->range(1, 6) : -(int)hg->range(1, 4);
+    refine = hg->range(0, 3);
+  }
+  circuitLsqRun(out, id, cc, tol, k, refine, shiftVisible);
+}
+
+// --replay of a CH case: `nethistory topo|lsq <tol mant> <tol exp2> <k> <refinement model>` + base circuit + calls
+static bool replayNetHistory(vh::Out &out, const std::string &txt) {
+  std::string head;
+  CircuitCase cc;
+  if (!parseNetHistory(txt, head, cc)) return false;
+  cc.build();
+  out.count("replay_net_history");
+  std::istringstream hs(head);
+  std::string what;
+  hs >> what;
+  if (what == "lsq") {
+    long long m = 0; int e = 0, k = 1, refine = 0;
+    hs >> m >> e >> k >> refine;
+    float tol = (float)std::ldexp((double)m, e);
+    if (!(tol > 0)) tol = 1.0e-4f;
+    circuitLsqRun(out, "replay", cc, tol, k, refine, false);
+  } else {
+    topologyRun(out, "replay", cc, false, false);
+  }
+  return true;
 }
 
 int main(int argc, char **argv) {
@@ -1033,9 +1463,26 @@ int main(int argc, char **argv) {
       "non-uniform float weights) through NetModel::xTopology/yTopology, a second stream with the circuit translated to "
       "coordinates of magnitude 2^22..2^26 and large pin offsets / cell sizes (int -> float conversions round), non-trivial = a degenerate net precedes a kept net whose "
       "weight differs from the weight at its NetModel index (and, for CL, the derived tolerance is below 1% of the scale); "
+      "CH: one case in three of the topology stream t and of CL gives the object its nets through a history of 2..6 public net-setter "
+      "calls (setNets with / without the weights argument incl. lists of another size, addNet with / without weight before and after "
+      "setNets, setNetWeights; counters hist_call_*, hist_setNets_without_weights_on_object_holding_non_unit_weights, "
+      "hist_setNets_to_fewer/more/as_many_nets, hist_addNet_*, topo_hist_cases, CL_hist_cases, *_hist_plan_k), the model / the "
+      "least-squares optimum are those of the nets the calls document, and the object's NetModel and solves are compared with a "
+      "freshly built twin (CH_topology_comparisons, CH_S2_initial_solve_comparisons, CH_S2_refinement_solve_comparisons, "
+      "CH_least_squares_comparisons); every history case of the topology stream counts as non-trivial, a CL one when its tolerance is sharp; "
       "distinct by the canonical text of the instance";
   out.count(HAS_H2 ? "hook_H2_present" : "hook_H2_absent");
   if (!HAS_H2) out.notes.push_back("hook H2 absent in this tree: assembled-system correspondence stream skipped; non-dyadic scaling oracle only for the initial star model");
+
+  if (!a.replay.empty()) {
+    // a recorded net-setter history (CH) is replayed alone; any other recorded input re-runs the streams of its seed
+    std::string txt = vhist::replayInput(a.replay);
+    if (txt.rfind("nethistory", 0) == 0) {
+      if (!replayNetHistory(out, txt)) out.fail("replay", "harness: cannot parse the recorded net-setter history", txt);
+      out.finish();
+      return 0;
+    }
+  }
 
   // --- weight<1 gadgets (corpus first: the F12 witness) --------------------------------------
   long long k = 0;
@@ -1114,7 +1561,8 @@ int main(int argc, char **argv) {
   long long nt = a.thorough() ? 20000 : (a.search() ? 0 : 1500);
   for (long long i = 0; i < nt; ++i) {
     vh::Rng g = vh::Rng::forCase(a.seed, 5000000 + i);
-    topologyCase(out, "t" + std::to_string(i), g, false);
+    vh::Rng hg = vh::Rng::forCase(a.seed, 9000000 + i);  // CH: one case in three reaches its nets through a history of net setters
+    topologyCase(out, "t" + std::to_string(i), g, false, hg.chance(1, 3) ? &hg : nullptr);
   }
   long long nu = a.thorough() ? 10000 : (a.search() ? 0 : 800);
   for (long long i = 0; i < nu; ++i) {
@@ -1124,7 +1572,8 @@ int main(int argc, char **argv) {
   long long nq = a.thorough() ? 20000 : (a.search() ? 8000 : 1500);
   for (long long i = 0; i < nq; ++i) {
     vh::Rng g = vh::Rng::forCase(a.seed, 6000000 + i);
-    circuitLsqOracle(out, "q" + std::to_string(i), g);
+    vh::Rng hg = vh::Rng::forCase(a.seed, 9500000 + i);
+    circuitLsqOracle(out, "q" + std::to_string(i), g, hg.chance(1, 3) ? &hg : nullptr);
   }
 
   // --- scaling + least-squares oracles on general instances --------------------------------------
